@@ -153,6 +153,14 @@ class Feature(tuple, metaclass=abc.ABCMeta):
     def __hash__(self):
         return hash(self.__class__) ^ super().__hash__()
 
+    def __eq__(self, other):
+        # non-operable features (operable ones overload ``==``): plain tuple equality would compare the nested members
+        # using the overloaded operators
+        return identical(self, other)
+
+    def __ne__(self, other):
+        return not identical(self, other)
+
     @abc.abstractmethod
     def accept(self, visitor: 'dsl.Feature.Visitor') -> None:
         """Visitor acceptor.
